@@ -14,7 +14,8 @@
 //!            are injected by division by zero; with a debugger attached, queued I/O writes and forced
 //!            I/O are exercised as well.
 //!
-//! Witness cases for the recorded findings are appended after the generated cases (`tag finding-…`).
+//! Witness cases for the recorded findings (repaired and open) are appended after the generated cases
+//! (`tag finding-…`): they are replayed on every run.
 
 use std::sync::{Arc, Mutex};
 
@@ -28,8 +29,8 @@ use trust_runtime::harness::TestHarness;
 use trust_runtime::io::{IoAddress, IoDriver, IoInterface, IoSize, IoTarget};
 use trust_runtime::memory::{InstanceId, IoArea, MemoryLocation, VariableStorage};
 use trust_runtime::value::{
-    read_partial_access, write_partial_access, Duration, PartialAccess, PartialAccessError, RefSegment,
-    Value, ValueRef,
+    read_partial_access, write_partial_access, DateTimeValue, DateValue, Duration, EnumValue, LDateTimeValue,
+    LDateValue, LTimeOfDayValue, PartialAccess, PartialAccessError, RefSegment, TimeOfDayValue, Value, ValueRef,
 };
 
 // ------------------------------------------------------------------------------------------------
@@ -194,10 +195,19 @@ fn val_tok(v: &Value) -> String {
         Value::LWord(x) => format!("lword:{x}"),
         Value::Char(x) => format!("char:{x}"),
         Value::WChar(x) => format!("wchar:{x}"),
-        Value::Time(_) => "other:1".into(),
+        // date and time values: the raw payload (nanoseconds / ticks)
+        Value::Time(x) => format!("time:{}", x.as_nanos()),
+        Value::LTime(x) => format!("ltime:{}", x.as_nanos()),
+        Value::Date(x) => format!("date:{}", x.ticks()),
+        Value::LDate(x) => format!("ldate:{}", x.nanos()),
+        Value::Tod(x) => format!("tod:{}", x.ticks()),
+        Value::LTod(x) => format!("ltod:{}", x.nanos()),
+        Value::Dt(x) => format!("dt:{}", x.ticks()),
+        Value::Ldt(x) => format!("ldt:{}", x.nanos()),
+        // an enum value: its numeric value (the names are not part of what the image carries)
+        Value::Enum(e) => format!("enum:{}", e.numeric_value),
         Value::String(_) => "other:2".into(),
         Value::Null => "other:3".into(),
-        Value::Enum(_) => "other:4".into(),
         _ => "other:9".into(),
     }
 }
@@ -250,8 +260,47 @@ enum Ty {
     LWord,
     LReal,
     Time,
+    Date,
+    Tod,
+    Dt,
+    LTime,
+    LDate,
+    LTod,
+    Ldt,
     Str,
 }
+
+/// The date and time types (DWord: TIME, DATE, TOD, DT; LWord: the L-variants).
+const TICKS: [Ty; 8] = [Ty::Time, Ty::Date, Ty::Tod, Ty::Dt, Ty::LTime, Ty::LDate, Ty::LTod, Ty::Ldt];
+
+/// Every type an AT binding can have: the 17 elementary types and the 8 date and time types.
+const BINDABLE: [Ty; 25] = [
+    Ty::Bool,
+    Ty::SInt,
+    Ty::USInt,
+    Ty::Byte,
+    Ty::Char,
+    Ty::Int,
+    Ty::UInt,
+    Ty::Word,
+    Ty::WChar,
+    Ty::DInt,
+    Ty::UDInt,
+    Ty::DWord,
+    Ty::Real,
+    Ty::LInt,
+    Ty::ULInt,
+    Ty::LWord,
+    Ty::LReal,
+    Ty::Time,
+    Ty::Date,
+    Ty::Tod,
+    Ty::Dt,
+    Ty::LTime,
+    Ty::LDate,
+    Ty::LTod,
+    Ty::Ldt,
+];
 
 const ELEMENTARY: [Ty; 17] = [
     Ty::Bool,
@@ -294,6 +343,13 @@ impl Ty {
             Ty::LWord => "LWORD",
             Ty::LReal => "LREAL",
             Ty::Time => "TIME",
+            Ty::Date => "DATE",
+            Ty::Tod => "TOD",
+            Ty::Dt => "DT",
+            Ty::LTime => "LTIME",
+            Ty::LDate => "LDATE",
+            Ty::LTod => "LTOD",
+            Ty::Ldt => "LDT",
             Ty::Str => "STRING",
         }
     }
@@ -317,6 +373,13 @@ impl Ty {
             Ty::LWord => "lword",
             Ty::LReal => "lreal",
             Ty::Time => "time",
+            Ty::Date => "date",
+            Ty::Tod => "tod",
+            Ty::Dt => "dt",
+            Ty::LTime => "ltime",
+            Ty::LDate => "ldate",
+            Ty::LTod => "ltod",
+            Ty::Ldt => "ldt",
             Ty::Str => "other",
         }
     }
@@ -340,13 +403,20 @@ impl Ty {
             Ty::LWord => TypeId::LWORD,
             Ty::LReal => TypeId::LREAL,
             Ty::Time => TypeId::TIME,
+            Ty::Date => TypeId::DATE,
+            Ty::Tod => TypeId::TOD,
+            Ty::Dt => TypeId::DT,
+            Ty::LTime => TypeId::LTIME,
+            Ty::LDate => TypeId::LDATE,
+            Ty::LTod => TypeId::LTOD,
+            Ty::Ldt => TypeId::LDT,
             Ty::Str => TypeId::STRING,
         }
     }
     fn from_id(id: TypeId) -> Option<Ty> {
-        ELEMENTARY
+        BINDABLE
             .iter()
-            .chain([Ty::Time, Ty::Str].iter())
+            .chain([Ty::Str].iter())
             .copied()
             .find(|t| t.id() == id)
     }
@@ -355,8 +425,21 @@ impl Ty {
             Ty::Bool => Sz::X,
             Ty::SInt | Ty::USInt | Ty::Byte | Ty::Char => Sz::B,
             Ty::Int | Ty::UInt | Ty::Word | Ty::WChar => Sz::W,
-            Ty::DInt | Ty::UDInt | Ty::DWord | Ty::Real | Ty::Time => Sz::D,
+            Ty::DInt | Ty::UDInt | Ty::DWord | Ty::Real => Sz::D,
+            Ty::Time | Ty::Date | Ty::Tod | Ty::Dt => Sz::D,
             Ty::LInt | Ty::ULInt | Ty::LWord | Ty::LReal | Ty::Str => Sz::L,
+            Ty::LTime | Ty::LDate | Ty::LTod | Ty::Ldt => Sz::L,
+        }
+    }
+    fn is_tick(self) -> bool {
+        TICKS.contains(&self)
+    }
+    /// Nanoseconds (or ticks) per image count: a TIME travels as milliseconds.
+    fn scale(self) -> i64 {
+        if self == Ty::Time {
+            1_000_000
+        } else {
+            1
         }
     }
     fn zero(self) -> Value {
@@ -382,7 +465,15 @@ impl Ty {
             Ty::ULInt => Value::ULInt(bits),
             Ty::LWord => Value::LWord(bits),
             Ty::LReal => Value::LReal(f64::from_bits(bits)),
-            Ty::Time => Value::Time(Duration::from_nanos(bits as i64 & 0xFFFF)),
+            // date and time types: `bits` is the raw payload (nanoseconds / ticks)
+            Ty::Time => Value::Time(Duration::from_nanos(bits as i64)),
+            Ty::LTime => Value::LTime(Duration::from_nanos(bits as i64)),
+            Ty::Date => Value::Date(DateValue::new(bits as i64)),
+            Ty::LDate => Value::LDate(LDateValue::new(bits as i64)),
+            Ty::Tod => Value::Tod(TimeOfDayValue::new(bits as i64)),
+            Ty::LTod => Value::LTod(LTimeOfDayValue::new(bits as i64)),
+            Ty::Dt => Value::Dt(DateTimeValue::new(bits as i64)),
+            Ty::Ldt => Value::Ldt(LDateTimeValue::new(bits as i64)),
             Ty::Str => Value::String("s".into()),
         }
     }
@@ -421,17 +512,59 @@ fn gen_value(rng: &mut Rng, ty: Ty) -> Value {
     if matches!(ty, Ty::LReal) && (bits & 0x7FF0_0000_0000_0000) == 0x7FF0_0000_0000_0000 && (bits & 0x000F_FFFF_FFFF_FFFF) != 0 {
         bits &= 0x7FEF_FFFF_FFFF_FFFF;
     }
+    if ty.is_tick() && ty.size() == Sz::D {
+        // a 32-bit date/time value: mostly a whole count that fits 32 bits (round trip exact),
+        // sometimes with a fraction of a count (TIME below 1 ms: truncated toward zero), sometimes
+        // any 64-bit payload (Overflow unless it happens to fit), sometimes just across the limits
+        let count = i64::from(bits as u32 as i32);
+        let payload = match rng.below(8) {
+            0 => bits as i64,
+            1 => count * ty.scale() + (rng.below(ty.scale() as u64) as i64) * if count < 0 { -1 } else { 1 },
+            2 => (*rng.pick(&[i64::from(i32::MAX) + 1, i64::from(i32::MIN) - 1, i64::from(i32::MAX), i64::from(i32::MIN)]))
+                * ty.scale()
+                + rng.range(-1, 1),
+            _ => count * ty.scale(),
+        };
+        return ty.value_from_bits(payload as u64);
+    }
     ty.value_from_bits(bits)
 }
 
+/// `Value::Enum` of the generated sources' type `Color` with the given numeric value.
+fn enum_value(numeric: i64) -> Value {
+    Value::Enum(EnumValue {
+        type_name: "Color".into(),
+        variant_name: match numeric {
+            0 => "Red".into(),
+            1 => "Green".into(),
+            2 => "Blue".into(),
+            _ => "Other".into(),
+        },
+        numeric_value: numeric,
+    })
+}
+
+/// An enum value: usually one of the three variants, sometimes any numeric value (around the
+/// limits of the integer types: `coerce_to_io` answers Overflow / TypeMismatch for an unsigned base).
+fn gen_enum_value(rng: &mut Rng) -> Value {
+    if rng.chance(2, 3) {
+        enum_value(rng.below(3) as i64)
+    } else {
+        enum_value(gen_bits(rng) as i64 >> *rng.pick(&[0u32, 32, 48, 56]))
+    }
+}
+
 fn gen_any_value(rng: &mut Rng) -> Value {
-    let ty = if rng.chance(1, 12) {
-        *rng.pick(&[Ty::Time, Ty::Str])
+    let ty = if rng.chance(1, 8) {
+        if rng.chance(1, 4) { Ty::Str } else { *rng.pick(&TICKS) }
     } else {
         *rng.pick(&ELEMENTARY)
     };
     if rng.chance(1, 40) {
         return Value::Null;
+    }
+    if rng.chance(1, 16) {
+        return gen_enum_value(rng);
     }
     gen_value(rng, ty)
 }
@@ -774,7 +907,7 @@ fn gen_other_value(rng: &mut Rng, ty: Ty) -> Value {
     let numeric = matches!(
         v,
         Value::SInt(_) | Value::Int(_) | Value::DInt(_) | Value::LInt(_) | Value::USInt(_) | Value::UInt(_)
-            | Value::UDInt(_) | Value::ULInt(_) | Value::Real(_) | Value::LReal(_)
+            | Value::UDInt(_) | Value::ULInt(_) | Value::Real(_) | Value::LReal(_) | Value::Enum(_)
     );
     if matches!(ty, Ty::Real | Ty::LReal) && numeric {
         if rng.bool() { Value::Null } else { gen_value(rng, ty) }
@@ -788,7 +921,7 @@ fn gen_other_value(rng: &mut Rng, ty: Ty) -> Value {
 fn run_sweep(n: u64, rng: &mut Rng, out: &mut Out) {
     out.line(format!("case {n}"));
     out.line("kind bind");
-    let ty = ELEMENTARY[((n / 16) % 17) as usize];
+    let ty = BINDABLE[((n / 16) % 25) as usize];
     let mut io = IoInterface::new();
     let len = rng.below(6) as usize;
     io.resize(0, len, len);
@@ -808,7 +941,15 @@ fn run_sweep(n: u64, rng: &mut Rng, out: &mut Out) {
     }
     out.line(format!("bind {} 0 {} {}", if by_ref { "ref" } else { "name" }, ad.tok(), ty.tok()));
     for _ in 0..16 {
-        let v = if rng.chance(1, 4) { gen_value(rng, ty) } else { gen_other_value(rng, ty) };
+        let own = if ty.is_tick() { 3 } else { 1 };
+        let v = if rng.chance(own, 4) {
+            gen_value(rng, ty)
+        } else if !matches!(ty, Ty::Real | Ty::LReal) && rng.chance(1, 5) {
+            // an enumerated variable bound with this (base) type
+            gen_enum_value(rng)
+        } else {
+            gen_other_value(rng, ty)
+        };
         storage.set_global("v0", v.clone());
         out.line(format!("setvar 0 {}", val_tok(&v)));
         out.line("publish");
@@ -876,7 +1017,7 @@ fn run_bind(n: u64, rng: &mut Rng, out: &mut Out) {
     // defined variables first so that reference offsets are stable
     let ndefined = if clean { nvars } else { nvars - (rng.below(3) as usize).min(nvars - 1) };
     for i in 0..nvars {
-        let ty = *rng.pick(&ELEMENTARY);
+        let ty = *rng.pick(&BINDABLE);
         var_ty.push(ty);
         if i < ndefined {
             let v = if clean { gen_value(rng, ty) } else { gen_var_value(rng, ty) };
@@ -894,9 +1035,11 @@ fn run_bind(n: u64, rng: &mut Rng, out: &mut Out) {
     let mut mismatch = false;
     for _ in 0..nb {
         let x = rng.below(nvars as u64) as usize;
-        let mut ty = if clean || rng.chance(7, 8) { var_ty[x] } else { *rng.pick(&ELEMENTARY) };
-        if matches!(ty, Ty::Real | Ty::LReal) && ty != var_ty[x] {
-            // float bindings only on variables of that float type (see gen_var_value)
+        let mut ty = if clean || rng.chance(7, 8) { var_ty[x] } else { *rng.pick(&BINDABLE) };
+        if (matches!(ty, Ty::Real | Ty::LReal) || matches!(var_ty[x], Ty::Real | Ty::LReal)) && ty != var_ty[x] {
+            // float bindings only on variables of that float type (see gen_var_value), and a float
+            // variable only gets bindings of its own type (an integer in-binding would latch a
+            // non-float numeric value into it)
             ty = var_ty[x];
         }
         let mut ad = gen_flat(rng, span);
@@ -915,7 +1058,7 @@ fn run_bind(n: u64, rng: &mut Rng, out: &mut Out) {
         }
         let addr = ad.real(out);
         let typed = clean || !rng.chance(1, 6);
-        let ty_real = if !clean && rng.chance(1, 30) { *rng.pick(&[Ty::Time, Ty::Str]) } else { ty };
+        let ty_real = if !clean && rng.chance(1, 30) { Ty::Str } else { ty };
         let by_ref = if defined[x] { rng.chance(1, 2) } else { dangling[x] };
         if by_ref {
             // a reference to a defined global, or a dangling one for an undefined variable
@@ -1054,6 +1197,9 @@ struct VarSpec {
     access: Access,
     /// never the source of a copy (so that wrong-kind values cannot reach expression evaluation)
     sink_only: bool,
+    /// declared with the enumerated type `Color` (`ty` is the base type INT the binding gets): takes
+    /// no part in copies, external writes store enum values
+    enum_var: bool,
 }
 
 #[derive(Clone, Debug)]
@@ -1080,6 +1226,8 @@ struct Decl {
     /// literal type name for the witness cases
     type_override: Option<String>,
 }
+
+const ENUM_TYPE: &str = "TYPE Color : (Red, Green, Blue); END_TYPE\n";
 
 #[derive(Clone, Debug)]
 enum Stmt {
@@ -1124,7 +1272,7 @@ impl RtCase {
                 DeclKind::Array { lo } => Access::Index(lo + k as i64),
                 DeclKind::Struct => Access::Field(k),
             };
-            self.vars.push(VarSpec { prog, ty: *ty, decl: d, access, sink_only });
+            self.vars.push(VarSpec { prog, ty: *ty, decl: d, access, sink_only, enum_var: false });
         }
         self.decls.push(Decl { prog, kind, first, n: leaf_tys.len(), at, init, type_override: None });
         first
@@ -1298,7 +1446,7 @@ fn gen_rt(rng: &mut Rng) -> RtCase {
     let nspecial = c.vars.len();
     // a small palette of types so that same-typed copies are frequent
     let npal = 1 + rng.below(4) as usize;
-    let palette: Vec<Ty> = (0..npal).map(|_| *rng.pick(&ELEMENTARY)).collect();
+    let palette: Vec<Ty> = (0..npal).map(|_| *rng.pick(&BINDABLE)).collect();
     let nbound = 3 + rng.below(8) as usize;
     for _ in 0..nbound {
         let area = *rng.pick(&[Ar::I, Ar::I, Ar::Q, Ar::Q, Ar::M]);
@@ -1320,6 +1468,19 @@ fn gen_rt(rng: &mut Rng) -> RtCase {
         let byte = rng.below(u64::from(span)) as u32;
         let bit = if letter == Sz::X { rng.below(8) as u8 } else { 0 };
         let sink = area == Ar::Q && rng.chance(1, 4);
+        if rng.chance(1, 8) {
+            // an enumerated variable: the binding gets the base type INT, the variable holds
+            // `Value::Enum` (until a latch of an %I/%M binding stores the bare integer: finding
+            // C07-enum-input)
+            if c.extra_types.is_empty() {
+                c.extra_types.push_str(ENUM_TYPE);
+            }
+            let first = c.add_decl(prog, DeclKind::Elem, &[Ty::Int], Some(Ad::flat(area, letter, byte, bit)), 0, true);
+            c.vars[first].enum_var = true;
+            let d = c.vars[first].decl;
+            c.decls[d].type_override = Some("Color".to_string());
+            continue;
+        }
         c.add_decl(prog, kind, &tys, Some(Ad::flat(area, letter, byte, bit)), 0, sink);
     }
     let nfree = 2 + rng.below(6) as usize;
@@ -1330,7 +1491,7 @@ fn gen_rt(rng: &mut Rng) -> RtCase {
     }
     for p in 0..nprogs {
         let visible: Vec<usize> = (nspecial..c.vars.len())
-            .filter(|i| c.vars[*i].prog.is_none() || c.vars[*i].prog == Some(p))
+            .filter(|i| (c.vars[*i].prog.is_none() || c.vars[*i].prog == Some(p)) && !c.vars[*i].enum_var)
             .collect();
         let mut body = vec![Stmt::Stamp(0, stamp[p])];
         let ncopies = rng.below(9) as usize;
@@ -1704,7 +1865,14 @@ fn run_rt(n: u64, rng: &mut Rng, cycles: usize, out: &mut Out) -> Result<(), Str
             }
             let i = *rng.pick(&ext_targets);
             let wrong = c.vars[i].sink_only && c.is_bound(i) && rng.chance(1, 6);
-            let v = if wrong { gen_other_value(rng, c.vars[i].ty) } else { gen_value(rng, c.vars[i].ty) };
+            let v = if wrong {
+                gen_other_value(rng, c.vars[i].ty)
+            } else if c.vars[i].enum_var {
+                out.count("rt_enum_ext");
+                gen_enum_value(rng)
+            } else {
+                gen_value(rng, c.vars[i].ty)
+            };
             if wrong {
                 out.count("rt_wrong_kind_ext");
             }
@@ -1797,7 +1965,13 @@ fn run_rt(n: u64, rng: &mut Rng, cycles: usize, out: &mut Out) -> Result<(), Str
 // witnesses of recorded findings (see known_findings.json)
 // ------------------------------------------------------------------------------------------------
 
-/// One bound variable of a type the compiler accepts for AT but the image coercions do not know.
+/// The witnesses of the recorded findings, in the order of their case numbers after the generated
+/// cases.
+const WITNESSES: [&str; 3] = ["time-input", "enum-output", "enum-input"];
+
+/// One bound variable of a type the compiler accepts for AT: a TIME input (repaired finding
+/// C07-time-input), an enum output (repaired finding C07-enum-output), an enum input (open finding
+/// C07-enum-input).
 fn witness_case(kind: &str) -> RtCase {
     let mut c = RtCase {
         vars: Vec::new(),
@@ -1817,13 +1991,16 @@ fn witness_case(kind: &str) -> RtCase {
     c.add_decl(Some(0), DeclKind::Elem, &[Ty::DInt], None, 0, true); // 3 fq
     match kind {
         "time-input" => {
-            // `l4 AT %ID0 : TIME` — io_size_for_type says DWord, coerce_from_io has no TIME arm
+            // `l4 AT %ID0 : TIME`
             c.add_decl(Some(0), DeclKind::Elem, &[Ty::Time], Some(Ad::flat(Ar::I, Sz::D, 0, 0)), 0, true);
         }
         _ => {
-            // `l4 AT %QW0 : Color` — leaf_value_type says INT, the variable holds Value::Enum
-            c.extra_types.push_str("TYPE Color : (Red, Green, Blue); END_TYPE\n");
-            c.add_decl(Some(0), DeclKind::Elem, &[Ty::Int], Some(Ad::flat(Ar::Q, Sz::W, 0, 0)), 0, true);
+            // `l4 AT %QW0 : Color` / `l4 AT %IW0 : Color` — leaf_value_type says INT, the variable
+            // holds Value::Enum
+            let area = if kind == "enum-output" { Ar::Q } else { Ar::I };
+            c.extra_types.push_str(ENUM_TYPE);
+            c.add_decl(Some(0), DeclKind::Elem, &[Ty::Int], Some(Ad::flat(area, Sz::W, 0, 0)), 0, true);
+            c.vars[4].enum_var = true;
             c.decls[4].type_override = Some("Color".to_string());
         }
     }
@@ -1836,7 +2013,7 @@ fn run_witness(n: u64, kind: &str, out: &mut Out) -> Result<(), String> {
     let mut run = match start_rt(&c) {
         Ok(run) => run,
         Err(e) if e.starts_with("compile:") => {
-            // the compiler now refuses the declaration: the finding is gone (refusing is a valid repair)
+            // the compiler refuses the declaration (the check decides what that means)
             out.line(format!("case {n}"));
             out.line("kind rt");
             out.line(format!("tag finding-{kind}"));
@@ -1847,12 +2024,15 @@ fn run_witness(n: u64, kind: &str, out: &mut Out) -> Result<(), String> {
         Err(e) => return Err(e),
     };
     emit_rt_header(n, &c, &run, out);
-    out.line("din 0 0 0 0:7,1:1");
-    run.shared.lock().expect("shared").scripts[0] = Script {
-        pokes: vec![(0, 7), (1, 1)],
-        read_fail: false,
-        write_fail: false,
-    };
+    // the driver delivers 263 = 0x0107 (TIME: T#263ms); for the enum input 1 (Green)
+    let pokes: Vec<(usize, u8)> = if kind == "enum-input" { vec![(0, 1)] } else { vec![(0, 7), (1, 1)] };
+    out.line(format!("din 0 0 0 {}", join(pokes.iter().map(|(o, b)| format!("{o}:{b}")), ",")));
+    run.shared.lock().expect("shared").scripts[0] = Script { pokes, read_fail: false, write_fail: false };
+    if kind == "enum-output" {
+        // the operator panel selects Blue
+        set_var(&mut run, &c, 4, enum_value(2));
+        out.line("ext 4 enum:2");
+    }
     out.line("cycle full");
     let (ans, _) = do_cycle(&mut run, &c, true);
     out.line(ans);
@@ -1875,9 +2055,9 @@ pub fn run(args: &Args) -> i32 {
     }
     for n in args.case_numbers() {
         let mut rng = Rng::for_case(args.seed, n);
-        // witnesses of the recorded findings occupy the two case numbers after the generated ones
+        // witnesses of the recorded findings occupy the case numbers after the generated ones
         if n >= args.cases {
-            let kind = if n == args.cases { "time-input" } else { "enum-output" };
+            let kind = WITNESSES[((n - args.cases) as usize).min(WITNESSES.len() - 1)];
             if let Err(e) = run_witness(n, kind, &mut out) {
                 eprintln!("witness {kind}: {e}");
                 return 3;
@@ -1899,7 +2079,7 @@ pub fn run(args: &Args) -> i32 {
         out.count("cases");
     }
     if args.only.is_none() {
-        for (k, kind) in ["time-input", "enum-output"].iter().enumerate() {
+        for (k, kind) in WITNESSES.iter().enumerate() {
             if let Err(e) = run_witness(args.cases + k as u64, kind, &mut out) {
                 eprintln!("witness {kind}: {e}");
                 return 3;
@@ -1919,7 +2099,13 @@ fn probe(path: &str) -> i32 {
                 println!("binding {} {:?} {:?}", from_io_address(&b.address).tok(), b.value_type, b.display_name);
             }
             h.runtime_mut().io_mut().resize(8, 8, 8);
-            h.runtime_mut().io_mut().inputs_mut().copy_from_slice(&[1, 2, 3, 4, 5, 6, 7, 8]);
+            let mut inputs = [1u8, 2, 3, 4, 5, 6, 7, 8];
+            if let Ok(text) = std::env::var("PROBE_INPUTS") {
+                for (k, b) in text.split(',').filter_map(|b| b.trim().parse::<u8>().ok()).take(8).enumerate() {
+                    inputs[k] = b;
+                }
+            }
+            h.runtime_mut().io_mut().inputs_mut().copy_from_slice(&inputs);
             for c in 0..3 {
                 h.advance_time(Duration::from_millis(10));
                 let r = h.cycle();
